@@ -142,17 +142,22 @@ def gen_config(rng, all_atom=None, tier="quick"):
         if all(v == 0 for v in poly.values()) and poly and not wild:
             poly[rng.choice(sorted(poly))] = 1.0
     frag_react = {}
+    full_matrix = rng.random() < 0.4
     if rng.random() < 0.6:
         for d in all_descs:
             if rng.random() < 0.8:
                 row = {}
                 if rng.random() > 0.1:
-                    for c in complements(d, all_descs):
+                    # a row lists the admissible partners, or (as in the class docstring) every descriptor of
+                    # the set: entries for descriptors that are no complement of d must simply be ignored
+                    listed = complements(d, all_descs) if not full_matrix else list(all_descs)
+                    for c in listed:
                         if rng.random() < 0.1:
                             continue
                         row[user_key(c)] = 0.0 if rng.random() < 0.35 else rng.choice([0.1, 0.3, 0.7, 1.0])
-                    if row and all(v == 0 for v in row.values()) and not wild:
-                        row[rng.choice(sorted(row))] = 1.0
+                    admissible = [k for k in sorted(row) if norm_key(k) in complements(d, all_descs)]
+                    if admissible and all(row[k] == 0 for k in admissible) and not wild:
+                        row[rng.choice(admissible)] = 1.0
                 frag_react[user_key(d)] = row
     terminal = []
     if rng.random() < 0.4 and all_descs:
